@@ -718,16 +718,23 @@ def eval_prim(ctx: Ctx, c: dict):
 
 def eval_case(ctx: Ctx, c: dict):
     k = c["kind"]
-    if k == "rt":
-        eval_rt(ctx, c)
-    elif k == "generic":
-        eval_generic(ctx, c)
-    elif k == "ft":
-        eval_ft(ctx, c)
-    elif k == "prim":
-        eval_prim(ctx, c)
-    else:
-        raise ValueError(k)
+    try:
+        if k == "rt":
+            eval_rt(ctx, c)
+        elif k == "generic":
+            eval_generic(ctx, c)
+        elif k == "ft":
+            eval_ft(ctx, c)
+        elif k == "prim":
+            eval_prim(ctx, c)
+        else:
+            raise ValueError(k)
+    except Exception as e:  # an exception escaping one of the library calls the oracle does not expect to raise
+        import traceback
+        where = traceback.extract_tb(e.__traceback__)[-1]
+        _fail(ctx, f"C05/{k}/unexpected-exception/{c.get('type', c.get('op', ''))}/{type(e).__name__}",
+              f"{type(e).__name__}: {e} (raised at {os.path.basename(where.filename)}:{where.lineno} {where.name}) while evaluating the case",
+              {"kind": k, "case": c})
 
 
 # ------------------------------------------------------------------------------------------------
@@ -914,6 +921,48 @@ def gen_prims(ctx: Ctx, scale: float, rng):
         eval_case(ctx, c)
 
 
+def gen_generic_compressed(ctx: Ctx, scale: float, rng):
+    """generic syntax of known types whose data holds a compression pointer: must be rejected (re-encode check)"""
+    for _ in range(max(1, int(60 * scale))):
+        g = G(rng, [b""])
+        tname = rng.choice(["RP", "PX", "SOA", "MX", "NS", "SRV", "NAPTR", "CH-A"])
+        first = g.rel_labels(40) + [b""]
+        w1 = b"".join(bytes([len(l)]) + l for l in first)
+        ptr = b"\xc0" + bytes([rng.choice([0, 0, 1, 2]) if len(w1) > 2 else 0])
+        if tname == "RP":
+            wire = w1 + ptr
+        elif tname == "PX":
+            wire = g.p16() + w1 + b"\xc0\x02"
+        elif tname == "SOA":
+            wire = w1 + ptr + g.p32() * 5
+        elif tname == "MX":
+            wire = g.p16() + rng.choice([b"\xc0\x02", b"\x01a\xc0\x00", w1])
+        elif tname == "NS":
+            wire = rng.choice([b"\xc0\x00", b"\x01a\xc0\x00", w1])
+        elif tname == "SRV":
+            wire = g.p16() * 3 + rng.choice([b"\xc0\x00", b"\xc0\x06", w1])
+        elif tname == "NAPTR":
+            wire = g.p16() * 2 + b"\x00\x00\x00" + rng.choice([b"\xc0\x00", w1])
+        else:
+            wire = w1 + g.p16()
+        text = "\\# %d %s" % (len(wire), wire.hex())
+        c = {"kind": "ft", "type": tname, "text": text, "origin": None, "rel": 1}
+        ctx.case(("ft-generic-compressed", tname, text), sample=c)
+        eval_case(ctx, c)
+        # oracle: a known type's generic form that is accepted must re-encode to the very same octets
+        rdclass, rdtype, _, _ = BY_NAME[tname]
+        try:
+            rd = dns.rdata.from_text(rdclass, rdtype, text)
+        except dns.exception.DNSException:
+            ctx.count("generic.compressed.rejected")
+            continue
+        if rd.to_wire() != wire:
+            _fail(ctx, "C05/generic-form/known-type/accepted-but-not-the-same-octets",
+                  f"{tname}: {text!r} accepted although the record re-encodes to {rd.to_wire().hex()}", {"kind": "ft", "case": c})
+        else:
+            ctx.count("generic.compressed.accepted-uncompressed")
+
+
 def gen_ft(ctx: Ctx, scale: float, rng):
     n_ft = max(1, int(40 * scale))
     for (rdclass, rdtype, tname, gen) in TYPES:
@@ -951,13 +1000,19 @@ def run(ctx: Ctx):
     generate(ctx, scale, rng)
     gen_prims(ctx, scale, rng.fork(1))
     gen_ft(ctx, scale, rng.fork(2))
+    gen_generic_compressed(ctx, scale, rng.fork(3))
 
 
 def search(ctx: Ctx):
     for m in ctx.mismatches[:50]:
-        if m.case is not None and "kind" in m.case and m.case["kind"] in ("rt", "generic", "ft"):
+        if m.case is not None and "kind" in m.case:
             eval_case(ctx, m.case)
-    generate(ctx, 3 if ctx.tier == "quick" else 40, ctx.rng.fork(7))
+    scale = 3 if ctx.tier == "quick" else 40
+    rng = ctx.rng.fork(7)
+    generate(ctx, scale, rng)
+    gen_prims(ctx, scale, rng.fork(1))
+    gen_ft(ctx, scale, rng.fork(2))
+    gen_generic_compressed(ctx, scale, rng.fork(3))
 
 
 def replay(ctx: Ctx, obj: dict):
